@@ -106,7 +106,7 @@ def gen_spec(ctx, rng, tier, force=None):
     force = force or {}
     g = Gen(rng, ctx)
     T = force.get('T') or rng.choice([2, 2, 2, 3, 3, 4])
-    locality = force.get('locality') or wchoice(rng, {'identical': 10, 'samecell': 15, 'near': 30, 'face': 13, 'far': 32})
+    locality = force.get('locality') or wchoice(rng, {'identical': 10, 'samecell': 15, 'near': 27, 'face': 10, 'edge': 12, 'far': 26})
     mix = force.get('mix') or wchoice(rng, {'forward': 15, 'inverse': 15, 'boundary': 15, 'geo': 35, 'all': 20})
     temp = force.get('temp') or wchoice(rng, {'cold': 40, 'warm': 22, 'hot': 18, 'recent': 12, 'other': 8})
     gran = force.get('gran') or ('instr' if (tier == 'thorough' and rng.random() < 0.1) else 'line')
@@ -125,6 +125,11 @@ def gen_spec(ctx, rng, tier, force=None):
     elif locality == 'near':
         base = g.base()
         threads = [[_usable_call(g, ctx, mix, base) for _ in range(n)] for n in counts]
+    elif locality == 'edge':
+        # every thread works on a point of some face edge (reflected triangles, cells straddling faces)
+        for n in counts:
+            b = (g.point('edge'), rng.randint(1, 12))
+            threads.append([_usable_call(g, ctx, mix, b) for _ in range(n)])
     elif locality == 'face':
         p0, r0 = g.base()
         for n in counts:
@@ -152,11 +157,13 @@ def gen_spec(ctx, rng, tier, force=None):
     solo = [[ctx.oracle(c)['steps'] for c in tc] for tc in threads]
     est = sum(sum(s) for s in solo)
     budget = 20 * est + 100_000
-    plan_kind = force.get('plan') or wchoice(rng, {'rw': 22, 'rwh': 16, 'pct': 12, 'one': 38, 'rr': 12})
+    plan_kind = force.get('plan') or wchoice(rng, {'rw': 18, 'rwh': 14, 'rwn': 14, 'pct': 10, 'one': 34, 'rr': 10})
     if plan_kind == 'rw':
         plan = {'plan': 'rw', 'p': rng.choice(RW_P)}
     elif plan_kind == 'rwh':
         plan = {'plan': 'rwh', 'p_hot': rng.choice([1.0, 0.5, 0.25, 0.1]), 'p_cold': rng.choice([0.0, 0.0, 1 / 512])}
+    elif plan_kind == 'rwn':
+        plan = {'plan': 'rwn', 'p_novel': rng.choice([1.0, 0.5, 0.25]), 'p_old': rng.choice([0.0, 0.0, 1 / 512])}
     elif plan_kind == 'pct':
         plan = {'plan': 'pct', 'd': rng.choice([1, 2, 3])}
     elif plan_kind == 'rr':
